@@ -3,16 +3,31 @@
 import json, subprocess
 HOOK_COMMITS = subprocess.run(["git","-C","/repo","log","--format=%H %s"],capture_output=True,text=True).stdout.splitlines()
 hooks=[l.split()[0] for l in HOOK_COMMITS if "verif-hooks" in l]
-CHECKS = {
- "C01": ("differential runtime monitor: library result mapped to document locations by node address vs reference evaluator (multiset), plus H1 segment-event trace check",
-         "Held on every execution produced: exhaustive product of a 2-segment query family with all small documents, plus seeded random queries x documents; each returned reference must be a node of the caller's document (address map) and the multiset of locations must equal the RFC 9535 reference evaluator's nodelist. Exploration, not proof: exhaustive only inside the stated bounds.",
-         "Trusted: reference evaluator transcribed from RFC 9535 (self-tested against the RFC's example tables at start-up), serde_json, the address map walk. Open known findings (escape decoding) are excluded by trigger predicates, see known_findings.json.",
-         "4/C01"),
- "C02": ("differential runtime monitor on result order: canonical sequence comparison, then permissive trace checker over H1 segment events (RFC partial order for descendants); exact effect model for the known union-order finding",
-         "Held on every execution produced (same workload as C01 plus an order-stress family): the result sequence equals the reference's document order, or, for descendant segments, is consistent with the partial order RFC 9535 allows as judged from the observed per-segment input/output node lists; multiplicities equal.",
-         "Trusted: as C01. The pinned selector-major union order is an open known finding with an exact effect model (any other order defect still fires).",
-         "4/C02"),
+BUILT = ["C01","C02","C03","C04","C05","C06","C07","C10","C11","C14"]
+COMMON_TRUST = "Trusted: the oracles in /verif/harness/oracle (written from RFC 9535, self-tested against the RFC's example tables and cross-checked against each other at the start of every run), serde_json, regex. Open known findings (known_findings.json) are excluded only through input-side trigger predicates / exact effect models whose witnesses are replayed first."
+ALL = {
+ "C01": ("differential runtime monitor: results mapped to document locations by node address vs reference evaluator (multiset) + H1 segment-event trace check of every step",
+         "Held on every execution produced: exhaustive product of a 2-segment query family with all small documents, plus seeded random queries x documents; each returned reference must be a node of the caller's document (address map) and the multiset of locations must equal the reference evaluator's nodelist; sampled executions are also checked step by step from the H1 hook events. Exhaustive only inside the stated bounds.", "4/C01"),
+ "C02": ("differential runtime monitor on result order: canonical sequence, then permissive trace checker over H1 segment events (RFC partial order for descendants); exact effect model for the known union-order finding",
+         "Held on every execution produced (C01's workload + an order-stress family): the result sequence equals the reference's document order or, for descendant segments, is consistent with the partial order RFC 9535 allows, judged from the observed per-segment input/output node lists; multiplicities equal.", "4/C02"),
+ "C03": ("runtime monitor: reported path vs Normalized Path rendered from the location found by node address; oracle-free bijection and re-query round trip",
+         "Held on every execution produced: every (route to a node) x (class of member name) combination over three nesting shapes plus random queries over documents with hostile names; path = Normalized Path of the node found by address, equal paths <=> same node, each reported path re-queried returns exactly that node.", "4/C03"),
+ "C04": ("exhaustive runtime monitor of the comparison table at the API boundary (both polarities), operator laws on observed outcomes, H3 comparison events",
+         "Exhaustive over a 41-element value universe (all ordered pairs incl. Nothing) x 6 operators x operand forms; each observed truth value equals RFC 9535 2.3.5.2.2, the derived-operator/trichotomy laws hold on the observed outcomes, and every comparison actually performed (H3 events, also when masked by ||) agrees with the table.", "4/C04"),
+ "C05": ("runtime monitor: enumerated Boolean formulas x valuation carrier vs reference, oracle-free Boolean laws between rewritings, H2 per-child filter decisions at every nesting level",
+         "Held on every execution produced: all formulas of an enumerated family (and sampled deeper ones) over a carrier realising all valuations incl. falsy/empty values, existence tests, nested-filter scoping queries; kept children equal the reference in order; logically equivalent rewritings select the same children; millions of H2 per-child decisions agree with the reference.", "4/C05"),
+ "C06": ("runtime monitor with two independent recognisers (ABNF set-matcher, hand parser + validity) as oracle: ABNF-derived sentences, all-spellings renderings, exhaustive short strings",
+         "Every string the two recognisers classify Valid (exhaustive over all strings up to the stated length over two alphabets; sampled derivations/renderings beyond) is accepted by parse_json_path and query().", "4/C06"),
+ "C07": ("runtime monitor with two independent recognisers as oracle: exhaustive short strings, named near misses, single-edit mutants of valid sentences",
+         "Every string classified Invalid (with a reason code) is rejected; exhaustive over the short-string families, sampled over single-edit mutants. Strings in the unsettled zones (U1, U2, undefined function names) are not judged.", "4/C07"),
+ "C10": ("runtime monitor: function sweeps vs reference evaluator with regex oracle; H4 function-application events checked against each function's definition",
+         "Held on every execution produced: length/count/value over every JSON type and node-list shape, match/search over a pattern grammar x all short subject strings (pattern as literal and from the document, both polarities, invalid patterns, non-strings); each application observed through H4 agrees with the definition.", "4/C10"),
+ "C11": ("exhaustive runtime monitor of the slice/index cube in isolated workers under release and overflow-checked builds; CPU-time termination watchdog",
+         "Exhaustive over the stated (length, start, end, step) cube and index range in several contexts, parsed and programmatic, plus extremes at the edge of the I-JSON range; results equal RFC 9535 2.3.4.2.2 (i128 transcription), no panic in the overflow-checked build, every case terminates within its CPU budget.", "4/C11"),
+ "C14": ("exhaustive runtime monitor over all pairs of small arrays; complement laws on observed results; H4 events",
+         "Exhaustive over all 156^2 ordered pairs of arrays of length <= 3 over a 5-element universe x 5 functions (plus value sweeps, nested random arrays, missing and non-array arguments); truth values equal the set-theoretic definitions, complement laws hold, ill-typed calls are false.", "4/C14"),
 }
+CHECKS = {k:(v[0],v[1],COMMON_TRUST,v[2]) for k,v in ALL.items() if k in BUILT}
 NOT_YET = {}
 props=[json.loads(l) for l in open('/verif/properties.jsonl')]
 checks=[]; na=[]
